@@ -113,6 +113,16 @@ def run_two_random_crop(cfg, ch):
             return "crop_box_outside_input", f"crop {k}: {(i, j, hh, ww)} on {h}x{w}"
         if not torch.equal(as_tensor(y[k]), as_tensor(F.crop(x, i, j, hh, ww))):
             return "recorded_parameters_do_not_reproduce_output", f"crop {k}: {(i, j, hh, ww)}"
+    # the recorded overlap must be the IoU of the two recorded boxes
+    ih = max(0, min(c["i0"] + c["h0"], c["i1"] + c["h1"]) - max(c["i0"], c["i1"]))
+    iw = max(0, min(c["j0"] + c["w0"], c["j1"] + c["w1"]) - max(c["j0"], c["j1"]))
+    inter = ih * iw
+    iou = inter / (c["h0"] * c["w0"] + c["h1"] * c["w1"] - inter)
+    if abs(c["overlap"] - iou) > 1e-9:
+        return "recorded_overlap_is_not_the_overlap_of_the_recorded_boxes", f"recorded {c['overlap']}, boxes give {iou}: {c}"
+    lo, hi = (omin or 0.0), (omax or 1.0)
+    if not c["out_of_tries"] and not (lo - 1e-9 <= iou <= hi + 1e-9):
+        return "overlap_outside_configured_range_without_out_of_tries", f"{iou} not in [{lo}, {hi}]: {c}"
     return None, tuple(c[k] for k in ("i0", "j0", "i1", "j1"))
 
 
@@ -381,6 +391,29 @@ def semseg_seeded(p):
 
 # ------------------------------------------------------------------------------- inverses
 
+def bbox_utils(p):
+    """kappadata/utils/bounding_box_utils.py: intersection areas against brute-force pixel counting, all boxes in a 4x4 grid."""
+    from kappadata.utils.bounding_box_utils import intersection_area_ijkl, intersection_area_ijhw
+    G = 4
+    boxes = [(i, j, k, l) for i in range(G) for j in range(G) for k in range(i + 1, G + 1) for l in range(j + 1, G + 1)]
+    for a in boxes:
+        pa = {(r, c) for r in range(a[0], a[2]) for c in range(a[1], a[3])}
+        for b in boxes:
+            pb = {(r, c) for r in range(b[0], b[2]) for c in range(b[1], b[3])}
+            exp = len(pa & pb)
+            p.evaluations += 1
+            try:
+                g1 = intersection_area_ijkl(*a, *b)
+                g2 = intersection_area_ijhw(a[0], a[1], a[2] - a[0], a[3] - a[1], b[0], b[1], b[2] - b[0], b[3] - b[1])
+            except Exception as e:
+                p.violation(f"C14:bounding_box_utils:exception:{type(e).__name__}", dict(kind="bbox", a=a, b=b), repr(e))
+                continue
+            if g1 != exp or g2 != exp:
+                p.violation("C14:bounding_box_utils:intersection_area_wrong", dict(kind="bbox", a=a, b=b),
+                            f"boxes {a} and {b}: intersection {exp}, ijkl says {g1}, ijhw says {g2}")
+    p.observe(("bbox", len(boxes)))
+
+
 def inverses(p):
     import torch
     from kappadata.transforms.patchify import Patchify
@@ -414,9 +447,10 @@ def inverses(p):
                     back = torch.empty_like(out)
                     back[:, perm] = out
                     return bool(torch.equal(UnpatchifyImage()(back, ctx=cx), x)), tuple(perm.tolist())
-                for chs, (ok, perm) in explore(body, cap=30):
+                for chs, res in explore(body, cap=30):
                     if chs is None:
                         break
+                    ok, perm = res
                     p.evaluations += 1
                     if not ok:
                         p.violation("C14:recorded_permutation_does_not_undo_patch_shuffle", dict(case, perm=list(perm)),
@@ -467,7 +501,7 @@ def configs(tier):
                             continue
                         out.append(("random_crop", (h, w, size, padding, pin, pil), None))
         for size in (1, 2, 4):
-            for om, ox in ((None, None), (0.2, 0.6)):
+            for om, ox in ((None, None), (0.2, 0.6), (0.05, 1.0)):
                 out.append(("two_random_crop", (h, w, size, om, ox, False), None))
         for size in (1, 3, (2, 4)):
             for scale in ((0.08, 1.0), (0.5, 1.0), (0.9, 1.0)):
@@ -500,7 +534,15 @@ def task(args):
     items, cap = args
     p = Partial()
     for kind, cfg, max_dev in items:
-        fn = RUNNERS[kind]
+        raw = RUNNERS[kind]
+
+        def fn(cfg, c, raw=raw):
+            # anything the library raises beyond an explicit rejection, and any output the oracle cannot even interpret,
+            # is a failure to deliver the promised value - never a harness crash
+            try:
+                return raw(cfg, c)
+            except Exception as e:
+                return f"exception:{type(e).__name__}", repr(e)
         n = 0
         for ch, res in explore(lambda c: fn(cfg, c), max_dev=max_dev, cap=cap):
             if ch is None:
@@ -529,6 +571,8 @@ def extra_task(which):
     p = Partial()
     if which == "inverses":
         inverses(p)
+    elif which == "bbox":
+        bbox_utils(p)
     else:
         semseg_seeded(p)
     return p
@@ -541,7 +585,7 @@ def run(run):
     cfgs = cfgs[k:] + cfgs[:k]
     chunk = 40
     run.pmap(task, [(cfgs[i:i + chunk], cap) for i in range(0, len(cfgs), chunk)])
-    run.pmap(extra_task, ["inverses", "semseg_seeded"])
+    run.pmap(extra_task, ["inverses", "semseg_seeded", "bbox"])
     run.exhaustive = run.counters.get("configs_capped", 0) == 0
     run.extra.update(bounds=dict(configs=len(cfgs), execution_cap_per_config=cap, uniform_alphabet=FRAC, integers="full range (<=8), else 5 points"))
     run.assumptions += [
@@ -556,9 +600,9 @@ def _t(x):
 
 
 def replay(case):
-    if case.get("kind") in ("inverse", "semseg_seeded"):
+    if case.get("kind") in ("inverse", "semseg_seeded", "bbox"):
         p = Partial()
-        (inverses if case["kind"] == "inverse" else semseg_seeded)(p)
+        {"inverse": inverses, "semseg_seeded": semseg_seeded, "bbox": bbox_utils}[case["kind"]](p)
         return None if not p.violations else "; ".join(m for _, m in list(p.violations.values())[:3])
     k, info = RUNNERS[case["kind"]](_t(case["cfg"]), Chooser(tuple(case["choices"])))
     return None if k in (None, "rejected") else f"{k}: {info}"
